@@ -60,6 +60,7 @@ class Path:
         self.notes = []
         self.model_hook = None  # callable(model) -> json
         self.bounded_inputs = set()  # input descriptors that cover only a stated finite scope (ListOf / KeyedDict)
+        self.flags = set()
         self.seq_lens = []  # length terms of symbolic sequences (to ask the solver for small counter-models)
 
     def bound_label(self):
